@@ -806,9 +806,26 @@ class Evolution(pg.DNAGenerator):
     # Recover the state of the population.
     init_population = []
 
-    for dna, reward in history:
+    # Feedbacks are replayed in the order in which they were received, which
+    # is recorded in the DNA metadata.
+    history = list(history)
+    for dna, _ in history:
       self._num_proposals += 1
       dna.use_spec(self.dna_spec)
+      # Recover `self.num_generations`, which starts to count when the initial
+      # population is complete.
+      generation_id = get_generation_id(dna)
+      if (not is_initial_population(dna)
+          and generation_id > self.num_generations):
+        self._global_state.num_generations = generation_id
+
+    fed_back = [(dna, reward) for dna, reward in history if reward is not None]
+    if all(get_feedback_sequence_number(dna) is not None
+           for dna, _ in fed_back):
+      fed_back.sort(key=lambda x: get_feedback_sequence_number(x[0]))
+
+    for dna, reward in fed_back:
+      num_generations = self.num_generations
       if reward is not None:
         # NOTE(daiyip): There is a possibility that the client has provided the
         # reward to the controller, but the controller process restarted before
@@ -827,16 +844,14 @@ class Evolution(pg.DNAGenerator):
           self._num_feedbacks += 1
         if is_initial_population(dna):
           init_population.append((dna, reward))
-
-      # Recover `self.num_generations`.
-      generation_id = get_generation_id(dna)
-      if generation_id > self.num_generations:
-        self._global_state.num_generations = generation_id
+      self._global_state.num_generations = max(
+          num_generations, self.num_generations)
 
     # Recover the state of the population initializer.
     if (self._init_population_size is not None
         and len(init_population) >= self._init_population_size):
       self._population_initialized = True
+      self._global_state.num_generations = max(1, self.num_generations)
     self._init_population_generator.recover(init_population)
 
 
